@@ -123,6 +123,12 @@ def configs(tier):
     for cks, (mode, closure) in itertools.product(("null", "crc32"), (("ack", False), ("unack", True), ("unack", False))):
         add(link="k", K=1 if cks == "crc32" else 0, mode=mode, closure=closure, size=L + 1, cks=cks, shape="nodir", ack_limit=2, nak_limit=2, check_limit=2,
             kinds=("drop", "dup", "delay"))
+    # two transactions; PDUs of the first (closed) one that are still in flight are also handed to the handler busy with the second
+    # (a less protective entity than the default shell): a stale Finished PDU must not decide the second transaction
+    for closure_mode in (dict(mode="unack", closure=True, check_limit=1), dict(mode="ack", nak="imm", closure=False, ack_limit=2, nak_limit=2)):
+        # (duplication / delay only towards the sender: a stale Metadata PDU that re-opens the first transaction at the idle receiver and
+        # truncates the file the second one delivered is the protocol's business, not the library's)
+        add(link="k", K=3, size=L, cks="crc32", tx2=dict(), offer_stale=True, kinds=("dup", "delay", "flip"), fault_channels=("ds",), **closure_mode)
     # request-level mode / closure differing from the MIB defaults of the remote entity configuration
     add(link="k", K=1, mode="unack", closure=False, req_closure=True, size=L + 1, check_limit=2, kinds=("drop", "dup", "delay", "flip", "reject"))
     add(link="k", K=1, mode="unack", closure=False, req_mode="ack", size=L + 1, ack_limit=2, nak_limit=2, kinds=("drop", "dup", "delay", "flip", "reject"))
